@@ -244,6 +244,12 @@ def run_case(seed, i, tier):
     plan = core.Plan(seed=rng.getrandbits(62), policy="random", now=now, budget=2_000_000)
     plan.hashseed = rng.getrandbits(32)
     scn = merge.scenario_for([src], opts, rng.choice(("UTC", "XYZ5", "<+0545>-5:45")))
+    if rng.random() < 0.2:
+        # the probe log named through '-', by a producer that takes a while: relative forms count from program start, not
+        # from whenever the list has arrived (the simulated clock is that much later once standard input has been read)
+        scn.argv = [a_ for a_ in scn.argv if a_ != src.path] + ["-"]
+        scn.stdin = (src.path + "\n").encode()
+        plan.stdin_delay = rng.choice((7, 90, 3600, 86400))
     res = core.execute(scn, plan)
     cr = CaseResult()
     cr.runs = 1
@@ -251,6 +257,8 @@ def run_case(seed, i, tier):
     cr.steps_max = res.trace.steps
     cr.policies["random"] += 1
     cr.faults["simulated_clock"] += 1
+    if getattr(plan, "stdin_delay", None):
+        cr.faults["path_list_on_stdin_arrives_late"] += 1
     cr.clock_span = (now[0], now[0])
     cr.probes["verdict_" + verdict[0]] += 1
     for s in (a_s, b_s):
